@@ -15,6 +15,63 @@ from pyvc.types import Ty  # noqa: E402
 F_MEM = "happysimulator/components/consensus/membership.py"
 F_PHI = "happysimulator/components/consensus/phi_accrual_detector.py"
 
+# ---------------------------------------------------------------------------- loop contracts
+# (declared before the repo modules are imported; the helpers they call are defined further down)
+MEMBER_STATE = [("MemberInfo", "state"), ("MemberInfo", "incarnation")]
+
+
+class Later(Ty):
+    """a type that is defined further down in this file (loop contracts must be declared first)"""
+
+    def __init__(self, f):
+        self.f = f
+
+    name = property(lambda self: self.f().name)
+
+    def sort(self):
+        return self.f().sort()
+
+    def wrap(self, term, loc=None):
+        return self.f().wrap(term, loc)
+
+    def unwrap(self, v):
+        return self.f().unwrap(v)
+
+    def assume_wf(self, term):
+        return self.f().assume_wf(term)
+
+    def concretize(self, model, term):
+        return self.f().concretize(model, term)
+
+
+# MembershipProtocol._apply_updates: for update in updates
+# while the first L.i updates of a gossip list have been applied: every member record made a legal step, and
+# the only deaths / new suspicions are the ones an applied update asked for
+# (ghost witness g_cause[name] = the update that last set name's state: keeps the invariants free of `exists`)
+for _pat in ("info.state = MemberState.SUSPECT", "info.state = MemberState.DEAD", "info.state = MemberState.ALIVE"):
+    ghost(F_MEM, "MembershipProtocol._apply_updates", _pat, "self.g_cause[member_name] = update")
+
+
+def gossip_facts(o0, o1, seq_t):
+    """between the views o0 and o1 of a node, with seq_t the (raw) list of updates applied so far"""
+    return [
+        ("every-member-made-a-legal-step", members_rel(o0, step_ok)),
+        ("deaths-only-as-announced-by-an-applied-update", members_rel(o0, lambda a, b: implies(
+            (st(b) == DEAD) & (st(a) != DEAD), caused(o1, seq_t, a.name, "dead", a.incarnation)))),
+        ("new-suspicions-only-of-alive-members-as-announced", members_rel(o0, lambda a, b: implies(
+            (st(b) == SUSPECT) & (st(a) != SUSPECT), (st(a) == ALIVE) & caused(o1, seq_t, a.name, "suspect", a.incarnation)))),
+        ("dead-members-only-revived-to-alive", members_rel(o0, lambda a, b: implies((st(a) == DEAD) & (st(b) != DEAD), st(b) == ALIVE))),
+    ]
+
+
+GOSSIP_NAMES = ["every-member-made-a-legal-step", "deaths-only-as-announced-by-an-applied-update",
+                "new-suspicions-only-of-alive-members-as-announced", "dead-members-only-revived-to-alive"]
+GOSSIP_INV = [(n, (lambda L, i=i: gossip_facts(L.old(L.self), L.self, seq_term(L.seq))[i][1]))
+              for i, n in enumerate(GOSSIP_NAMES)] + [("members-well-formed", lambda L: members_well_formed(L.self))]
+GOSSIP_MODIFIES = MEMBER_STATE + [("MembershipProtocol", "g_cause")]
+loop(F_MEM, "MembershipProtocol._apply_updates", 1, modifies=GOSSIP_MODIFIES, elem=Later(lambda: UPD),
+     types={"update": lambda: UPD}, inv=GOSSIP_INV)
+
 from specs.common import *  # noqa: E402,F401
 
 from happysimulator.components.consensus.phi_accrual_detector import PhiAccrualDetector  # noqa: E402
@@ -144,3 +201,432 @@ fn("specs.C13", "phi_at_two_times", kind="function", args={"det": Ref(PhiAccrual
    uses=STATS, ensures=[
     ("phi-never-decreases-while-no-heartbeat-arrives", _phi_monotone),
     ("detector-untouched", lambda s: unchanged(s, s.det))])
+
+
+# ============================================================================ B. typing of the protocol
+# (types local to this property, after specs/C11.py: a Python Enum stored in a field; the metadata
+# dict of an event and the gossip update dicts as records with literal keys and a presence set)
+class EnumTy(Ty):
+    def __init__(self, enum):
+        self.enum, self.members = enum, list(enum)
+        self.name = f"Enum({enum.__name__})"
+
+    def sort(self):
+        return z3.IntSort()
+
+    def _rng(self, term):
+        return z3.Or(*[term == m.value for m in self.members])
+
+    def wrap(self, term, loc=None):
+        term = z3.simplify(term)
+        if z3.is_int_value(term):
+            return self.enum(term.as_long())
+        c = _ctx.cur()
+        c.assume(self._rng(term))
+        return self.members[c.choose([term == m.value for m in self.members], site="enum:" + self.name)]
+
+    def unwrap(self, v):
+        if isinstance(v, self.enum):
+            return z3.IntVal(v.value)
+        raise OutOfReach(f"{type(v).__name__} stored where {self.name} is declared")
+
+    def assume_wf(self, term):
+        _ctx.cur().assume(self._rng(term))
+
+    def concretize(self, model, term):
+        v = model.eval(term, model_completion=True).as_long()
+        return next((m.name for m in self.members if m.value == v), v)
+
+
+class RecFieldLoc:
+    def __init__(self, parent, rty, k):
+        self.parent, self.rty, self.k = parent, rty, k
+
+    def get(self):
+        return self.rty.acc(self.k)(self.parent.get())
+
+    def set(self, t):
+        self.parent.set(self.rty.rebuild(self.parent.get(), vals={self.k: t}))
+
+
+class Record(Ty):
+    """dict with literal string keys of fixed value types: presence set + one typed slot per key"""
+
+    def __init__(self, name, fields):
+        self.name, self.fields = name, dict(fields)
+        d = z3.Datatype("Rec_" + name)
+        d.declare("mk", ("has", z3.ArraySort(z3.StringSort(), z3.BoolSort())),
+                  *[("f_" + k, ty.sort()) for k, ty in self.fields.items()])
+        self.dt = d.create()
+
+    def sort(self):
+        return self.dt
+
+    def acc(self, k):
+        return getattr(self.dt, "f_" + k)
+
+    def has(self, term, k):
+        return z3.Select(self.dt.has(term), z3.StringVal(k))
+
+    def empty(self):
+        return self.dt.mk(z3.K(z3.StringSort(), z3.BoolVal(False)), *[_default_of(ty.sort()) for ty in self.fields.values()])
+
+    def rebuild(self, m, has=None, vals=None):
+        vals = vals or {}
+        return z3.simplify(self.dt.mk(has if has is not None else self.dt.has(m),
+                                      *[vals.get(k, self.acc(k)(m)) for k in self.fields]))
+
+    def wrap(self, term, loc=None):
+        return RecProxy(loc if loc is not None else Box(term), self)
+
+    def unwrap(self, v):
+        if isinstance(v, RecProxy) and v._ty is self:
+            return v._loc.get()
+        if isinstance(v, dict):
+            p = RecProxy(Box(self.empty()), self)
+            for k, x in v.items():
+                p[k] = x
+            return p._loc.get()
+        raise OutOfReach(f"{type(v).__name__} stored where record {self.name} is declared")
+
+    def concretize(self, model, term):
+        v = model.eval(term, model_completion=True)
+        out = {}
+        for k, ty in self.fields.items():
+            if z3.is_true(model.eval(self.has(v, k), model_completion=True)):
+                out[k] = ty.concretize(model, self.acc(k)(v))
+        return out
+
+
+class RecProxy:
+    def __init__(self, loc, ty):
+        self._loc, self._ty = loc, ty
+
+    @property
+    def term(self):
+        return self._loc.get()
+
+    def _key(self, k):
+        if not isinstance(k, str) or k not in self._ty.fields:
+            raise OutOfReach(f"key {k!r} is not declared in record {self._ty.name}")
+        return k
+
+    def _val(self, k):
+        return self._ty.fields[k].wrap(self._ty.acc(k)(self.term), RecFieldLoc(self._loc, self._ty, k))
+
+    def get(self, k, default=None):
+        k = self._key(k)
+        if not _ctx.cur().branch(self._ty.has(self.term, k), site="rec:" + k):
+            return default
+        return self._val(k)
+
+    def __getitem__(self, k):
+        k = self._key(k)
+        if not _ctx.cur().branch(self._ty.has(self.term, k), site="rec:" + k):
+            raise KeyError(k)
+        return self._val(k)
+
+    def __contains__(self, k):
+        return _ctx.cur().branch(self._ty.has(self.term, self._key(k)), site="rec:" + k)
+
+    def __setitem__(self, k, v):
+        k = self._key(k)
+        m = self.term
+        self._loc.set(self._ty.rebuild(m, has=z3.Store(self._ty.dt.has(m), z3.StringVal(k), z3.BoolVal(True)),
+                                       vals={k: self._ty.fields[k].unwrap(v)}))
+
+    def update(self, other):
+        if isinstance(other, dict):
+            for k, v in other.items():
+                self[k] = v
+            return
+        if isinstance(other, RecProxy) and other._ty is self._ty:
+            m, o, ty = self.term, other.term, self._ty
+            self._loc.set(ty.rebuild(m, has=z3.SetUnion(ty.dt.has(m), ty.dt.has(o)),
+                                     vals={k: z3.If(ty.has(o, k), ty.acc(k)(o), ty.acc(k)(m)) for k in ty.fields}))
+            return
+        raise OutOfReach("record.update with an unmodelled argument")
+
+    def __bool__(self):
+        return _ctx.cur().branch(self._ty.dt.has(self.term) != z3.K(z3.StringSort(), z3.BoolVal(False)), site="rec:bool")
+
+    def copy(self):
+        return RecProxy(Box(self.term), self._ty)
+
+    __hash__ = None
+
+
+# one gossip update {'member': name, 'state': 'suspect'|'dead'|'alive', 'incarnation': n}
+UPD = Record("update", {"member": Str, "state": Str, "incarnation": Int})
+U = UPD.dt
+UPDATES = Seq(UPD)
+# metadata of the protocol's messages and timers
+MSG = Record("swimmsg", {"source": Str, "destination": Str, "from": Str, "incarnation": Int, "updates": UPDATES,
+                         "ack_for": Str, "indirect_for": Str, "probe_target": Str, "suspect": Str})
+M = MSG.dt
+
+
+class CtxProxy:
+    """Event.context: only the 'metadata' entry is modelled ('id'/'created_at' are write-only here)"""
+
+    def __init__(self, loc):
+        self._loc = loc
+
+    def _md(self, k):
+        if k != "metadata":
+            raise OutOfReach(f"event context key {k!r} is not modelled in specs/C13.py")
+        return RecProxy(self._loc, MSG)
+
+    def get(self, k, default=None):
+        return self._md(k)
+
+    __getitem__ = _md
+
+    def setdefault(self, k, v=None):
+        return v if k in ("id", "created_at") else self._md(k)
+
+    def copy(self):
+        return CtxProxy(Box(self._loc.get()))
+
+    __hash__ = None
+
+
+class _CtxTy(Ty):
+    name = "EventContext"
+
+    def sort(self):
+        return MSG.sort()
+
+    def wrap(self, term, loc=None):
+        return CtxProxy(loc if loc is not None else Box(term))
+
+    def unwrap(self, v):
+        if isinstance(v, CtxProxy):
+            return v._loc.get()
+        if isinstance(v, dict) and set(v) <= {"id", "created_at", "metadata"}:
+            return MSG.unwrap(v.get("metadata", {}))
+        raise OutOfReach(f"{type(v).__name__} stored as event context")
+
+    def concretize(self, model, term):
+        return {"metadata": MSG.concretize(model, term)}
+
+
+CTX = _CtxTy()
+cls(Event, fields={"context": CTX})          # overrides the opaque Map(Str, Any) typing of specs/common.py (this check only)
+
+from happysimulator.components.consensus.membership import MembershipProtocol, MemberInfo, MemberState  # noqa: E402
+from happysimulator.components.network.network import Network  # noqa: E402
+
+STATE = EnumTy(MemberState)
+ALIVE, SUSPECT, DEAD = MemberState.ALIVE.value, MemberState.SUSPECT.value, MemberState.DEAD.value
+
+
+def md(event, state=None):
+    """raw MSG term of an event's metadata"""
+    return field_term(event, "context", state)
+
+
+def mhas(m, *keys):
+    return mk_bool(z3.And(*[MSG.has(m, k) for k in keys]))
+
+
+def mstr(m, k):
+    """wrapped Str/Int field of a raw message term (no fork)"""
+    return MSG.fields[k].wrap(MSG.acc(k)(m))
+
+
+# ---- network: message creation (the body of Network.send is verified here as well)
+cls(Network, fields={})
+
+
+def built_msg(payload, source, destination):
+    """the metadata Network.send builds: {} + source + destination + payload (raw term)"""
+    p = RecProxy(Box(MSG.empty()), MSG)
+    p["source"] = source.name
+    p["destination"] = destination.name
+    if payload is not None:
+        p.update(payload)
+    return p.term
+
+
+SEND_ARGS = {"source": Ref(Entity), "destination": Ref(Entity), "event_type": Str, "payload": Opt(MSG), "daemon": Bool}
+fn(Network, "send", args=SEND_ARGS, returns=Ref(Event), modifies=[], ensures=[
+    ("carries-source-destination-and-payload", lambda s: mk_bool(md(s.result) == built_msg(s.payload, s.source, s.destination))),
+    ("addressed-to-the-network-now", lambda s: same(s.result.target, s.self) & (ns(s.result.time) == now_ns(s.self))
+        & (s.result.event_type == s.event_type) & iff(s.result.daemon, s.daemon) & Not(s.result._cancelled))])
+SEND = (Network, "send")
+
+# ---- members
+cls(MemberInfo, fields={"name": Str, "entity": Ref(Entity), "state": STATE, "incarnation": Int,
+                        "detector": Ref(PhiAccrualDetector), "state_change_time": Real},
+    const=["name", "entity", "detector"],
+    inv=[("incarnation-nonneg", lambda o: o.incarnation >= 0)])
+
+MEMBERS = Map(Str, Ref(MemberInfo))
+ACKS = Map(Str, Ref(Event))
+cls(MembershipProtocol, fields={
+    "_network": Ref(Network), "_probe_interval": Real, "_suspicion_timeout": Real, "_indirect_probe_count": Int,
+    "_phi_threshold": Real, "_members": MEMBERS, "_incarnation": Int, "_pending_updates": UPDATES,
+    "_probe_order": Seq(Str), "_probe_index": Int, "_pending_acks": ACKS, "_probes_sent": Int,
+    "_indirect_probes_sent": Int, "_acks_received": Int, "_updates_disseminated": Int},
+    ghost={"g_cause": Map(Str, UPD)},       # the gossip update that last set a member's state (witness only)
+    const=["_network", "_probe_interval", "_suspicion_timeout", "_indirect_probe_count", "_phi_threshold"])
+
+
+def st(info):
+    """raw state of a member record as an int term wrapped (no fork): ALIVE=1 SUSPECT=2 DEAD=3"""
+    return mk_num(field_term(info, "state"))
+
+
+def member(o, k):
+    """proxy of the MemberInfo stored under key k in the heap state of the view o (meaningful only for keys)"""
+    kt = k.t if hasattr(k, "t") else z3.StringVal(k)
+    return ObjProxy(z3.Select(MEMBERS.dt.val(field_term(o, "_members")), kt), MemberInfo, o._frozen)
+
+
+def is_member(o, k):
+    kt = k.t if hasattr(k, "t") else z3.StringVal(k)
+    return mk_bool(z3.Select(MEMBERS.dt.dom(field_term(o, "_members")), kt))
+
+
+def in_state(info, frozen):
+    """the same member record viewed in another heap state"""
+    return ObjProxy(info._ref, MemberInfo, frozen)
+
+
+PROTO_INV = [
+    ("members-keyed-by-their-name", lambda o: forall(Str, lambda k: implies(is_member(o, k), member(o, k).name == k), "k")),
+    ("not-a-member-of-itself", lambda o: Not(is_member(o, o.name))),
+    ("timing-configuration-positive", lambda o: (o._probe_interval > 0) & (o._suspicion_timeout >= 0)),
+    ("probe-index-nonneg", lambda o: o._probe_index >= 0),
+    ("members-well-formed", lambda o: members_well_formed(o)),
+]
+cls(MembershipProtocol, inv=PROTO_INV)
+
+
+def members_well_formed(o):
+    return forall(Str, lambda k: implies(
+        is_member(o, k), (member(o, k).incarnation >= 0) & (1 <= st(member(o, k))) & (st(member(o, k)) <= 3)), "k")
+
+
+def members_rel(o0, rel):
+    """rel(view in state o0, current view) for every member record of o0"""
+    return forall(Str, lambda k: implies(is_member(o0, k), rel(member(o0, k), in_state(member(o0, k), None))), "k")
+
+
+def upd_inc(u):
+    """incarnation carried by a raw update term (0 when the key is absent, as the code reads it)"""
+    return z3.If(UPD.has(u, "incarnation"), U.f_incarnation(u), z3.IntVal(0))
+
+
+def names(u, name, state):
+    """the raw update u is a `state` announcement about member `name`"""
+    return z3.And(UPD.has(u, "member"), UPD.has(u, "state"), U.f_member(u) == Str.unwrap(name),
+                  U.f_state(u) == z3.StringVal(state))
+
+
+CAUSE = Map(Str, UPD)
+
+
+def caused(o, seq_t, name, state, inc0):
+    """one of the updates seq_t (raw sequence term) announces `state` for `name` with an incarnation >= inc0;
+    the witness is the ghost record o.g_cause[name]"""
+    g = field_term(o, "g_cause")
+    kt = Str.unwrap(name)
+    u = z3.Select(CAUSE.dt.val(g), kt)
+    return mk_bool(z3.And(z3.Select(CAUSE.dt.dom(g), kt), names(u, name, state), upd_inc(u) >= num(inc0),
+                          z3.Contains(seq_t, z3.Unit(u))))
+
+
+# ---- M1: the per-member state machine, as a relation between two heap states of one member record
+def step_ok(a, b):
+    """a -> b is a legal history of one member record: incarnation never decreases, and a member reported
+    DEAD is not reported ALIVE (or merely suspected) again without a strictly higher incarnation"""
+    return (b.incarnation >= a.incarnation) & implies((st(a) == DEAD) & (st(b) != DEAD), b.incarnation > a.incarnation)
+
+
+def all_members(s, rel):
+    """rel(old view, new view) for every member record of s.self (the member table itself is unchanged)"""
+    o0 = s.old(s.self)
+    return forall(Str, lambda k: implies(is_member(o0, k), rel(member(o0, k), in_state(member(o0, k), None))), "k")
+
+
+def untouched(a, b):
+    return (st(a) == st(b)) & (a.incarnation == b.incarnation)
+
+
+def same_table(s):
+    return unchanged(s, s.self, "_members")
+
+
+def upd_term(member_name, state, incarnation):
+    p = RecProxy(Box(UPD.empty()), UPD)
+    p["member"] = member_name
+    p["state"] = state
+    p["incarnation"] = incarnation
+    return p.term
+
+
+def queue_grew_by(s, u):
+    return mk_bool(seq_term(s.self._pending_updates) == z3.Concat(seq_term(s.old(s.self)._pending_updates), z3.Unit(u)))
+
+
+def queue_same(s):
+    return mk_bool(seq_term(s.self._pending_updates) == seq_term(s.old(s.self)._pending_updates))
+
+
+# ---- _suspect_member: the only place where a member becomes SUSPECT locally
+fn(MembershipProtocol, "_suspect_member", args={"info": Ref(MemberInfo), "now_s": Real}, modifies=["_pending_updates"], ensures=[
+    ("alive-becomes-suspect-others-stay", lambda s: st(s.info) == ite(st(s.old(s.info)) == ALIVE, SUSPECT, st(s.old(s.info)))),
+    ("never-reported-alive-afterwards", lambda s: st(s.info) != ALIVE),
+    ("incarnation-kept", lambda s: s.info.incarnation == s.old(s.info).incarnation),
+    ("suspicion-gossiped-iff-new", lambda s: ite_b(st(s.old(s.info)) == ALIVE,
+        queue_grew_by(s, upd_term(s.info.name, "suspect", s.info.incarnation)), queue_same(s))),
+    ("table-untouched", same_table)])
+
+fn(MembershipProtocol, "_drain_updates", returns=UPDATES, modifies=["_pending_updates", "_updates_disseminated"], ensures=[
+    ("hands-out-everything-queued-once", lambda s: mk_bool(seq_term(s.result) == seq_term(s.old(s.self)._pending_updates))
+        & (slen(s.self._pending_updates) == 0)),
+    ("counted", lambda s: s.self._updates_disseminated == s.old(s.self)._updates_disseminated + slen(s.result)),
+    ("members-untouched", lambda s: all_members(s, untouched) & same_table(s))])
+DRAIN = (MembershipProtocol, "_drain_updates")
+
+
+# ---- suspicion timeout: the only local SUSPECT -> DEAD transition
+def _timeout_post(s):
+    m = md(s.event)
+    name = mstr(m, "suspect")
+    o0 = s.old(s.self)
+    named = mhas(m, "suspect") & is_member(o0, name) & (name != "")      # (an empty name is falsy in the code)
+    return forall(Str, lambda k: implies(is_member(o0, k), ite_b(
+        named & (k == name) & (st(member(o0, k)) == SUSPECT),
+        (st(in_state(member(o0, k), None)) == DEAD) & (member(o0, k).incarnation == in_state(member(o0, k), None).incarnation),
+        untouched(member(o0, k), in_state(member(o0, k), None)))), "k")
+
+
+def _timeout_gossip(s):
+    m = md(s.event)
+    name = mstr(m, "suspect")
+    o0 = s.old(s.self)
+    died = mhas(m, "suspect") & is_member(o0, name) & (st(member(o0, name)) == SUSPECT)
+    # (an empty name is falsy in the code: nothing happens)
+    died = died & (name != "")
+    return ite_b(died, queue_grew_by(s, upd_term(name, "dead", member(o0, name).incarnation)), queue_same(s))
+
+
+fn(MembershipProtocol, "_handle_suspicion_timeout", args={"event": Ref(Event)}, ensures=[
+    ("only-the-named-suspect-dies-and-only-if-still-suspect", _timeout_post),
+    ("state-machine", lambda s: all_members(s, step_ok)),
+    ("death-gossiped-iff-declared", _timeout_gossip),
+    ("table-untouched", same_table)])
+
+
+# ---- gossip: the only other way a member's state changes
+def gossip_clauses(updates_of):
+    """the gossip_facts between pre- and post-state of a call that applied the list updates_of(s) (raw term)"""
+    return [(n, (lambda s, i=i: gossip_facts(s.old(s.self), s.self, updates_of(s))[i][1])) for i, n in enumerate(GOSSIP_NAMES)]
+
+
+fn(MembershipProtocol, "_apply_updates", args={"updates": UPDATES},
+   ensures=gossip_clauses(lambda s: seq_term(s.updates)) + [
+    ("nothing-else-touched", lambda s: unchanged(s, s.self))])
